@@ -80,7 +80,7 @@ def carried(kind, spec, impl_frame):
 
 class C11(PropBase):
     id = "C11"
-    lean_modules = ["SqModel.Props.C11", "SqModel.Proofs.Dispatch", "SqModel.Proofs.Bridge", "SqModel.Proofs.BridgeRat", "SqModel.Proofs.BridgePlane"]
+    lean_modules = ["SqModel.Props.C11", "SqModel.Proofs.Dispatch", "SqModel.Proofs.Bridge", "SqModel.Proofs.BridgeRat", "SqModel.Proofs.BridgePlane", "SqModel.Proofs.BridgeTable"]
     extractors = ["dispatch", "trans"]
     rule = ("sequences over an alphabet of 35 well-formed frame kinds (every supported format, both edges of every type-code class, capability 4 and 7, a BDS 2,0 reply) x 2 aircraft (every supported format; altitude codes with Q=1), "
             "bounded-exhaustive for length 2 and sampled for length 3 (quick) / exhaustive length 3 (thorough), plus random sequences of "
